@@ -401,14 +401,116 @@ fn gen_zst(_t: Tier) -> Box<dyn Iterator<Item = Vec<u64>>> {
     Box::new((0..4u64).flat_map(|l| (0..3u64).flat_map(move |b| (0..4u64).flat_map(move |n| (0..6u64).map(move |w| vec![l, b, n, w])))))
 }
 
+const COPY_FORMS: [&str; 7] = [
+    "region.get_slice(o, 0) + u8 copies with empty buffers",
+    "guest.get_slice(base+o, 0) + u8 copies with empty buffers",
+    "region get_array_ref::<[u8;0]>(o, 4) copy_to/copy_from",
+    "region get_array_ref::<u32>(o, 0) copy_to/copy_from",
+    "region get_ref::<[u8;0]>(o) store/load",
+    "region.get_slice(o, 0) copy_to/copy_from of [u64;0] elements",
+    "region get_array_ref::<[u64;0]>(o, 1000) copy_to_volatile_slice",
+];
+
+/// Copy forms at region and guest level: the accessor for "no bytes at offset o" is obtained from
+/// the region (VolatileMemory of the mapped region) or from guest memory, then copied through.
+fn run_region_copy(t: &mut Tape, cx: &mut Cx) -> Result<(), String> {
+    let form = t.idx(COPY_FORMS.len());
+    let ri = t.idx(3);
+    WORLD.with(|w| {
+        let w = w.as_ref().map_err(|e| format!("HARNESS-PANIC: world: {}", e))?;
+        let r = w.mem.iter().nth(ri).unwrap();
+        let l = r.len();
+        let base = w.layout.regs[ri].0;
+        let classes: [(u64, &str, bool); 6] = [(0, "offset 0", true), (l / 2, "interior", true), (l - 1, "last byte", true), (l, "one past the end", false), (l + 5, "beyond the end", false), (u64::MAX, "u64::MAX", false)];
+        let (o, cname, valid) = classes[t.idx(classes.len())];
+        let what = format!("{} on a {} region, o = {:#x} ({})", COPY_FORMS[form], w.kinds[ri], o, cname);
+        note!(cx, "{}", what);
+        cx.nt(if valid { "copy_valid_offset" } else { "copy_invalid_offset" });
+        cx.label(w.kinds[ri]);
+        let before = w.snapshot();
+        let ou = o as usize;
+        // at an address valid for a non-empty access the accessor must be produced; elsewhere a
+        // refusal is accepted
+        macro_rules! got {
+            ($e:expr) => {
+                match $e {
+                    Ok(x) => Some(x),
+                    Err(e) => {
+                        ensure!(!valid, "{}: refused with {:?}", what, e);
+                        None
+                    }
+                }
+            };
+        }
+        match form {
+            0 | 1 | 5 => {
+                let s = if form == 1 { got!(w.mem.get_slice(GuestAddress(base.wrapping_add(o)), 0)) } else { got!(r.get_slice(MemoryRegionAddress(o), 0)) };
+                if let Some(s) = s {
+                    ensure!(s.len() == 0, "{}: slice of {} bytes", what, s.len());
+                    if form == 5 {
+                        let mut b = [[0u64; 0]; 3];
+                        let k = s.copy_to(&mut b[..]);
+                        ensure!(k <= 3, "{}: copy_to reported {} elements", what, k);
+                        s.copy_from(&b[..]);
+                    } else {
+                        let mut e: [u8; 0] = [];
+                        ensure!(s.copy_to(&mut e[..]) == 0, "{}: copy_to(&mut []) != 0", what);
+                        s.copy_from(&e[..]);
+                        let mut b = [0u8; 4];
+                        ensure!(s.copy_to(&mut b[..]) == 0, "{}: an empty slice copied elements out", what);
+                        s.copy_from(&b[..]);
+                    }
+                }
+            }
+            2 => {
+                if let Some(a) = got!(r.get_array_ref::<[u8; 0]>(ou, 4)) {
+                    let mut b = [[0u8; 0]; 4];
+                    let k = a.copy_to(&mut b[..]);
+                    ensure!(k <= 4, "{}: copy_to reported {} elements", what, k);
+                    a.copy_from(&b[..]);
+                }
+            }
+            3 => {
+                if let Some(a) = got!(r.get_array_ref::<u32>(ou, 0)) {
+                    let mut b = [0u32; 2];
+                    ensure!(a.copy_to(&mut b[..]) == 0, "{}: an empty array copied elements out", what);
+                    a.copy_from(&b[..]);
+                }
+            }
+            4 => {
+                if let Some(z) = got!(r.get_ref::<[u8; 0]>(ou)) {
+                    z.store([]);
+                    let _: [u8; 0] = z.load();
+                }
+            }
+            _ => {
+                if let Some(a) = got!(r.get_array_ref::<[u64; 0]>(ou, 1000)) {
+                    let fr = Framed::new(8, 0);
+                    a.copy_to_volatile_slice(fr.slice());
+                    fr.canaries_ok()?;
+                }
+            }
+        }
+        let after = w.snapshot();
+        ensure!(after.bytes == before.bytes, "{}: guest memory changed", what);
+        ensure!(after.bits == before.bits, "{}: the access marked pages dirty", what);
+        w.windows_ok()
+    })
+}
+
+fn gen_region_copy(_t: Tier) -> Box<dyn Iterator<Item = Vec<u64>>> {
+    Box::new((0..COPY_FORMS.len() as u64).flat_map(|f| (0..3u64).flat_map(move |r| (0..6u64).map(move |c| vec![f, r, c]))))
+}
+
 pub fn property() -> Property {
     Property {
         id: "C18",
-        rule: "complete enumeration of (entry point x layer x address class x container): the 10 zero-length forms of the byte-access interface (empty write/read/write_slice/read_slice, write_obj/read_obj of zero-sized arrays, the four stream forms with count 0) at guest level (tracked GuestMemoryMmap; xen build: Unix + advance-mapped grant + on-demand grant regions; default-method mock incl. the top of the address space), region level, slice level (containers of 0/1/8/33 bytes at several alignments, empty sub-slices) over the address classes {interior, first/last byte, one past a region (hole or adjacent region), hole, 0, 2^32, 2^63, u64::MAX}; plus copies of zero-sized elements ([T;0]) through slices, element arrays (0..1000 elements) and typed references; oracle: Ok(0)/Ok(()), no panic, memory and dirty bits unchanged, no Xen window left; stream forms are only required to succeed at addresses valid for a non-empty access; non-trivial = every class (all are boundary classes by construction); distinct = (entry, layer, class, container)",
+        rule: "complete enumeration of (entry point x layer x address class x container): the 10 zero-length forms of the byte-access interface (empty write/read/write_slice/read_slice, write_obj/read_obj of zero-sized arrays, the four stream forms with count 0) at guest level (tracked GuestMemoryMmap; xen build: Unix + advance-mapped grant + on-demand grant regions; default-method mock incl. the top of the address space), region level, slice level (containers of 0/1/8/33 bytes at several alignments, empty sub-slices) over the address classes {interior, first/last byte, one past a region (hole or adjacent region), hole, 0, 2^32, 2^63, u64::MAX}; plus copies of zero-sized elements ([T;0]) and of zero elements through slices, element arrays (0..1000 elements) and typed references, obtained from plain slices and from mapped regions / guest memory (get_slice(o,0), get_array_ref, get_ref at offsets {0, interior, last, len, len+5, u64::MAX}); oracle: Ok(0)/Ok(()), no panic, memory and dirty bits unchanged, no Xen window left; stream forms are only required to succeed at addresses valid for a non-empty access; non-trivial = every class (all are boundary classes by construction); distinct = (entry, layer, class, container)",
         assumptions: &["for the stream forms and zero-sized element copies the statement only covers addresses valid for a non-empty access; elsewhere an error is accepted but a panic is not"],
         subchecks: vec![
             SubCheck { name: "guest", builds: &[Build::Std, Build::Plain, Build::Xen], kind: Kind::Exhaustive { gen: gen_guest }, run: run_guest },
             SubCheck { name: "region", builds: &[Build::Std, Build::Plain, Build::Xen], kind: Kind::Exhaustive { gen: gen_region }, run: run_region },
+            SubCheck { name: "region_copy", builds: &[Build::Std, Build::Plain, Build::Xen], kind: Kind::Exhaustive { gen: gen_region_copy }, run: run_region_copy },
             SubCheck { name: "slice", builds: &[Build::Std, Build::Plain], kind: Kind::Exhaustive { gen: gen_slice }, run: run_slice },
             SubCheck { name: "zst", builds: &[Build::Std, Build::Plain], kind: Kind::Exhaustive { gen: gen_zst }, run: run_zst },
         ],
